@@ -102,12 +102,15 @@ class _StdApi:
                     # The opcodes of the API object this class belongs to; not
                     # those of the default (running interpreter's) API.
                     opc = api_opc
+                # dup_lines is an xdis extension; dis.Bytecode marks a line
+                # only where dis.findlinestarts() does.
                 _Bytecode.__init__(
                     self,
                     x,
                     opc=opc,
                     first_line=first_line,
                     current_offset=current_offset,
+                    dup_lines=False,
                 )
 
         self.Bytecode = Bytecode
